@@ -21,7 +21,8 @@ import networkx as nx
 import common
 from common import Atom, Case, Run, ImplError, prepare, enc_graph, enc_mapper
 
-PROOFS = ["FGVerif.Proofs.C07", "FGVerif.Proofs.C07Default", "FGVerif.Proofs.C07Key", "FGVerif.Proofs.C07Bridge"]
+PROOFS = ["FGVerif.Proofs.C07", "FGVerif.Proofs.C07Default", "FGVerif.Proofs.C07Key", "FGVerif.Proofs.C07Bridge",
+          "FGVerif.Proofs.C07Strings", "FGVerif.Proofs.C07KeyGraph", "FGVerif.Proofs.C07Embeds"]
 WORKER = os.path.join(os.path.dirname(os.path.abspath(__file__)), "worker_seed.py")
 MAPPER = enc_mapper("R", True, [])
 
